@@ -1,5 +1,5 @@
 /-
-  `sfmodel abs-write` — evaluates THE WRITE-SIDE PREDICATE of C01 / C04 / C07 / C11 (`Sf.AbsWrite.judge`,
+  `sfmodel abs-write` — evaluates THE WRITE-SIDE PREDICATE of C01 / C04 / C07 / C11 (`Sf.AbsWrite.judgeG` = `judge` + the exact rate clause `rateOkG`,
   lean/SfModel/AbsWrite.lean) on the records of the all-format write campaign (vlib/writecamp.py).
 
   stdin: any number of records, each
@@ -194,7 +194,7 @@ def finish (r : Rec) : String :=
   let geomBad := (match r.block with | some b => b != rc.g.block | none => false) || (match r.pad with | some p => p != rc.g.pad | none => false)
   if geomBad then s!"{r.name} bad tag=geometry run=1 idx=0 lean-block={rc.g.block} lean-pad={rc.g.pad}"
   else
-    let fs := AbsWrite.judge rc
+    let fs := AbsWrite.judgeG rc          -- `judge` with the exact rate clause on the whole geometry (VOC block types)
     if fs.isEmpty then
       let w := AbsWrite.written rc.g.ch rc.one.calls
       let loss := AbsWrite.sameType rc.ty rc.one.calls && AbsWrite.losslessFor rc.g rc.ty w
